@@ -292,9 +292,14 @@ def merge(res, ctx, outs, focus, pid):
                 m = dict(m, monitor="c07")  # the interface contract is checked (and reported) with C07
             if m["monitor"] != pid.lower():
                 continue  # another property's monitor: reported by that property's check
-            key = slug(m["messages"][0])
-            sc = shrink(ctx.model, m["scenario"], focus, (m["monitor"],) if m["monitor"] in MON else (), "mon", key) if len(res.monitor_failures) < 2 else m["scenario"]
-            res.monitor_failures.append({"what": "%s monitor failed on the real client: %s" % (pid, "; ".join(m["messages"][:3])), "scenario": sc, "tags": [pid.lower() + "-" + slug(x) for x in m["messages"]]})
+            # one failure per distinct message, so that a known finding never masks another violation
+            for msg in sorted(set(slug(x) for x in m["messages"])):
+                text = next(x for x in m["messages"] if slug(x) == msg)
+                if sum(1 for f in res.monitor_failures if f["tags"] == [pid.lower() + "-" + msg]) >= 3:
+                    continue
+                first = not any(f["tags"] == [pid.lower() + "-" + msg] for f in res.monitor_failures)
+                sc = shrink(ctx.model, m["scenario"], focus, (m["monitor"],) if m["monitor"] in MON else (), "mon", msg) if first and len(res.monitor_failures) < 4 else m["scenario"]
+                res.monitor_failures.append({"what": "%s monitor failed on the real client: %s" % (pid, text), "scenario": sc, "tags": [pid.lower() + "-" + msg]})
 
 
 def net_scenarios(ctx, res, n, focus, pid=None):
